@@ -1,5 +1,106 @@
-(* Properties_C01.v — placeholder while the C01 theorems are assembled: the abstract basis theorem of de Pina's scheme. *)
-From Parmcb Require Import DePinaSpec DePinaProofs.
+(* Properties_C01.v — C01: mcb_sva_signed returns a cycle basis of the right size.
+
+   C01_scheme_yields_basis        the abstract basis theorem of de Pina's scheme (DePinaProofs.v)
+   C01_signed_cycle_space_basis   UNCONDITIONAL, any weight type / weights / oracles: whenever the exact model
+                                  of mcb_sva_signed (SignedModel.v) answers SvaOk, the cycles are m - n + c
+                                  elements of the cycle space, GF(2)-independent and spanning it.
+                                  Not covered by this statement (both need optimality of the signed search):
+                                  that SvaOk is always reached and that each cycle is vertex-simple.
+   C01_signed_modulo_search       Z weights: with minimality and totality of the per-phase signed search as
+                                  explicit premises (SignedProofs.signed_search_min / signed_search_total),
+                                  mcb_sva_signed_Z answers SvaOk with a cycle basis (simple cycles) of size
+                                  m - n + c.
+   The premises of the modulo-search theorem are satisfiable (checked on K4 against the verified
+   reference search, SignedProofs2.v). *)
+From Coq Require Import List Arith Bool ZArith.
+From Parmcb Require Import GraphModel GF2Model GraphSpec GF2Lin McbSpec DePinaSpec DePinaProofs
+     ForestModel SvaModel SvaSpec SignedModel SignedZModel SignedProofs SignedProofs2.
+Import ListNotations.
+
 Theorem C01_scheme_yields_basis : depina_basis_stmt.
 Proof. exact depina_basis. Qed.
 Print Assumptions C01_scheme_yields_basis.
+
+Theorem C01_signed_cycle_space_basis :
+  forall (W : Type) (w0 : W) (wadd : W -> W -> W) (wltb : W -> W -> bool) (eord : nat -> nat)
+         (g : graph) (wts : list W) (roots : list nat)
+         (cycles : list (list nat)) (total : W) (sup : list vec),
+    simple_graph g -> (forall v, v < nv g -> In v roots) ->
+    mcb_sva_signed W w0 wadd wltb eord g wts roots = SvaOk cycles total sup ->
+    has_cycle_space_dimension g (length cycles) /\ Forall (in_cycle_space g) cycles
+    /\ indep cycles /\ spans (in_cycle_space g) cycles.
+Proof. exact mcb_sva_signed_basis_partial. Qed.
+Print Assumptions C01_signed_cycle_space_basis.
+
+(* non-vacuity: K4 with unit weights; this is the answer of the real code for these oracles *)
+Example C01_signed_cycle_space_basis_nonvacuous :
+  simple_graph sg_k4 /\ (forall v, v < nv sg_k4 -> In v sg_k4_roots) /\
+  mcb_sva_signed Z 0%Z Z.add Z.ltb (fun e => nth e sg_k4_eord 0) sg_k4 sg_k4_wts sg_k4_roots
+  = SvaOk [[0;1;3];[0;2;4];[1;2;5]] 9%Z [[0];[0;1];[1;2]].
+Proof.
+  split; [exact sg_k4_simple|]. split; [exact sg_k4_roots_cover|]. vm_compute. reflexivity.
+Qed.
+
+Theorem C01_signed_modulo_search :
+  forall (g : graph) (wts : list Z) (roots eord : list nat),
+    simple_graph g -> positive_weights g wts -> (forall v, v < nv g -> In v roots) ->
+    (forall fi, create_index g roots = Some fi ->
+       signed_search_min g wts (fun e => nth e eord 0) fi
+       /\ signed_search_total g wts (fun e => nth e eord 0) fi) ->
+    exists cycles total sup,
+      mcb_sva_signed_Z g wts roots eord = SvaOk cycles total sup
+      /\ cycle_basis g cycles /\ has_cycle_space_dimension g (length cycles).
+Proof. exact C01_signed_modulo_search_lemma. Qed.
+Print Assumptions C01_signed_modulo_search.
+
+(* non-vacuity: on K4 (unit weights) every hypothesis holds — the two search premises by the certificate
+   check against the verified reference search — and the run is the one of the real code *)
+Example C01_signed_modulo_search_nonvacuous :
+  simple_graph sg_k4 /\ positive_weights sg_k4 sg_k4_wts /\ (forall v, v < nv sg_k4 -> In v sg_k4_roots) /\
+  (forall fi, create_index sg_k4 sg_k4_roots = Some fi ->
+     signed_search_min sg_k4 sg_k4_wts (fun e => nth e sg_k4_eord 0) fi
+     /\ signed_search_total sg_k4 sg_k4_wts (fun e => nth e sg_k4_eord 0) fi) /\
+  mcb_sva_signed_Z sg_k4 sg_k4_wts sg_k4_roots sg_k4_eord
+  = SvaOk [[0;1;3];[0;2;4];[1;2;5]] 9%Z [[0];[0;1];[1;2]].
+Proof.
+  split; [exact sg_k4_simple|]. split; [exact sg_k4_positive|]. split; [exact sg_k4_roots_cover|].
+  split; [exact sg_k4_premises|exact sg_k4_run].
+Qed.
+
+(* ---- C01, full strength for the signed variant (Z weights) ---------------------------------------------
+   C01_signed   NO premise about the search: for every simple graph, positive integer weights, every root
+                order and every edge-order oracle, the exact model mcb_sva_signed_Z answers SvaOk with a cycle
+                basis (simple cycles, independent, spanning) of size m - n + c.
+   The two premises of C01_signed_modulo_search are discharged by the optimality proof of the
+   bidirectional signed search (BidirSpec.v: bidir_spec_stmt etc., BidirProofs1–5.v, BidirProofsA1–A3.v:
+   Dijkstra invariant of one frontier over the exact 4-ary heap, the bidirectional loop with its stop
+   condition, limit and fuel, the reconstruction, and the all-vertices / hidden-edge branches of a phase). *)
+From Parmcb Require Import BidirSpec BidirProofs5.
+
+Theorem C01_signed :
+  forall (g : graph) (wts : list Z) (roots eord : list nat),
+    simple_graph g -> positive_weights g wts -> (forall v, v < nv g -> In v roots) ->
+    exists cycles total sup,
+      mcb_sva_signed_Z g wts roots eord = SvaOk cycles total sup
+      /\ cycle_basis g cycles /\ has_cycle_space_dimension g (length cycles).
+Proof. exact BidirProofs5.C01_signed. Qed.
+Print Assumptions C01_signed.
+
+(* the per-phase search premises hold for every input (so C01_signed_modulo_search is never vacuous) *)
+Theorem C01_signed_search_premises :
+  forall (g : graph) (wts : list Z) (roots : list nat) (eord : nat -> nat) (fi : forest_index),
+    simple_graph g -> positive_weights g wts -> (forall v, v < nv g -> In v roots) ->
+    create_index g roots = Some fi ->
+    signed_search_min g wts eord fi /\ signed_search_total g wts eord fi.
+Proof. exact BidirProofs5.signed_search. Qed.
+Print Assumptions C01_signed_search_premises.
+
+(* non-vacuity: K4 with unit weights satisfies the hypotheses, and the run is the one of the real code *)
+Example C01_signed_nonvacuous :
+  simple_graph sg_k4 /\ positive_weights sg_k4 sg_k4_wts /\ (forall v, v < nv sg_k4 -> In v sg_k4_roots) /\
+  mcb_sva_signed_Z sg_k4 sg_k4_wts sg_k4_roots sg_k4_eord
+  = SvaOk [[0;1;3];[0;2;4];[1;2;5]] 9%Z [[0];[0;1];[1;2]].
+Proof.
+  split; [exact sg_k4_simple|]. split; [exact sg_k4_positive|]. split; [exact sg_k4_roots_cover|].
+  exact sg_k4_run.
+Qed.
